@@ -107,7 +107,8 @@ def _cmp_entry(prefix, name, exp, got, ptags, policy, out, is_return=False):
     elif policy.type_map is not None:
         acceptable = policy.type_map(et, exp)
         if acceptable is not None and not any(types_equal(a, gt, policy.ignore_type_ws) for a in acceptable):
-            out.append(Disc(prefix + "typ:changed", where, "expected one of %r got %r" % (sorted(map(str, acceptable)), gt), ptags))
+            out.append(Disc(prefix + ("typ:lost" if gt is None else "typ:invented" if et is None else "typ:changed"), where,
+                            "expected %s got %r" % (" or ".join(sorted(repr(a) for a in acceptable)), gt), ptags))
     elif et is None and gt is not None:
         out.append(Disc(prefix + "typ:invented", where, "expected no type, got %r" % gt, ptags))
     elif et is not None and gt is None:
